@@ -158,11 +158,12 @@ func (gp *GenginePool) getGengine() (*gengineWrapper, error) {
 		gp.getEngineLock.Lock()
 		//check if there has enough resource in pool
 		numFree := len(gp.freeGengines)
+		verifHook("freelen", int64(numFree), 0)
 		if numFree > 0 {
 			gp.runningLock.Lock()
 			gw := gp.freeGengines[0]
 			gp.freeGengines = gp.freeGengines[1:]
-			verifHook("pop", gw.tag, verifLocked(&gp.runningLock))
+			verifHook("pop", gw.tag, verifLocked(&gp.runningLock)+2*int64(len(gp.freeGengines)))
 			gp.runningLock.Unlock()
 			gp.getEngineLock.Unlock()
 			return gw, nil
@@ -170,11 +171,12 @@ func (gp *GenginePool) getGengine() (*gengineWrapper, error) {
 
 		//check if there has addition resource
 		numAddition := len(gp.additionGengines)
+		verifHook("addlen", int64(numAddition), 0)
 		if numAddition > 0 {
 			gp.additionLock.Lock()
 			gw := gp.additionGengines[0]
 			gp.additionGengines = gp.additionGengines[1:]
-			verifHook("pop", gw.tag, verifLocked(&gp.additionLock))
+			verifHook("pop", gw.tag, verifLocked(&gp.additionLock)+2*int64(len(gp.additionGengines)))
 			gp.additionLock.Unlock()
 			gp.getEngineLock.Unlock()
 			return gw, nil
@@ -192,12 +194,12 @@ func (gp *GenginePool) putGengineLocked(gw *gengineWrapper) {
 		if gw.addition {
 			gp.additionLock.Lock()
 			gp.additionGengines = append(gp.additionGengines, gw)
-			verifHook("push", gw.tag, verifLocked(&gp.additionLock))
+			verifHook("push", gw.tag, verifLocked(&gp.additionLock)+2*int64(len(gp.additionGengines)))
 			gp.additionLock.Unlock()
 		} else {
 			gp.runningLock.Lock()
 			gp.freeGengines = append(gp.freeGengines, gw)
-			verifHook("push", gw.tag, verifLocked(&gp.runningLock))
+			verifHook("push", gw.tag, verifLocked(&gp.runningLock)+2*int64(len(gp.freeGengines)))
 			gp.runningLock.Unlock()
 		}
 	}()
